@@ -375,6 +375,8 @@ class World:
         self.vchan = self.pchan = self.sftp = None
         self.relay_pid = None
         self.writer = None
+        self.pre_seen = None
+        self.vchan2 = self.pchan2 = None
 
     # -- construction -----------------------------------------------------
     def build(self):
@@ -440,6 +442,10 @@ class World:
             if schan is None:
                 raise RuntimeError("server never saw the channel")
             self.vchan, self.pchan = (cchan, schan) if self.role == "client" else (schan, cchan)
+        if self.a.get("pre") == "peer_close_other":
+            c2 = self.tc.open_session(timeout=60)
+            s2 = self.ts.accept(60)
+            self.vchan2, self.pchan2 = (c2, s2) if self.role == "client" else (s2, c2)
         if need == "chanfull":
             # the peer never reads, so the victim's send window stays exhausted
             self.vchan.sendall(b"f" * self.vchan.out_window_size)
@@ -671,6 +677,37 @@ def _describe(stack):
 
 
 PRE_ACTIONS = ("shutdown_read", "shutdown2", "shutdown_write", "set_combine_stderr", "settimeout_none")
+# protocol-level events from the peer that name the victim's established, in-use channel before the loss
+PEER_MSGS = ("peer_open_failure", "peer_open_confirm_dup", "peer_close_other", "peer_chan_failure", "peer_chan_success")
+
+
+def send_peer_msg(w, kind):
+    rid = w.pchan.remote_chanid  # the victim's own id of the channel under test
+    m = Message()
+    if kind == "peer_open_failure":  # stray CHANNEL_OPEN_FAILURE for an established channel
+        m.add_byte(bytes([92]))
+        m.add_int(rid)
+        m.add_int(2)
+        m.add_string("stray")
+        m.add_string("en")
+    elif kind == "peer_open_confirm_dup":  # second OPEN_CONFIRMATION (window 0: a full send window stays full)
+        m.add_byte(bytes([91]))
+        m.add_int(rid)
+        m.add_int(w.pchan.chanid)
+        m.add_int(0)
+        m.add_int(32768)
+    elif kind == "peer_chan_failure":  # CHANNEL_FAILURE with nothing pending
+        m.add_byte(bytes([100]))
+        m.add_int(rid)
+    elif kind == "peer_chan_success":  # CHANNEL_SUCCESS with nothing pending
+        m.add_byte(bytes([99]))
+        m.add_int(rid)
+    elif kind == "peer_close_other":  # the peer closes a *different* established channel
+        w.pchan2.close()
+        return
+    else:
+        raise ValueError(kind)
+    w.P._send_message(m)
 
 
 def apply_pre(w):
@@ -678,6 +715,19 @@ def apply_pre(w):
     half-close marks EOF *without* the peer having sent one: the reader must still be released)."""
     pre, ch = w.a.get("pre"), w.vchan
     if not pre or pre == "none" or ch is None:
+        return
+    if pre.startswith("peer_"):
+        n0 = len(w.rec.events)
+        send_peer_msg(w, pre)
+        # until the victim's reader has decoded it
+        side = "c" if w.role == "client" else "s"
+        end = time.monotonic() + 30
+        while time.monotonic() < end:
+            if any(e.get("side") == side and e.get("kind") == "msg" and e.get("dir") == "in"
+                   and e.get("type") in (91, 92, 97, 99, 100) for e in w.rec.snapshot()[n0:]):
+                w.pre_seen = True
+                break
+            time.sleep(0.02)
         return
     if pre == "shutdown_read":
         ch.shutdown_read()
@@ -1072,6 +1122,7 @@ def run_case(a):
         if st == "premature":
             # a timeout variant that expired on its own, a pre-loss action that ended the call, or a harness problem
             res["callers"] = [c.report() for c in callers]
+            res["pre_seen"] = w.pre_seen
             w.teardown()
             return dict(res, status="done", verdict="premature")
         if st == "unsettled":
@@ -1158,6 +1209,7 @@ def run_case(a):
         msgs_total=len(w.rec.events),
         v_tail=v_tail(w, res["msgs_before"]),
         writer=w.writer,
+        pre_seen=w.pre_seen,
         crashes=[dict(c, victim=(c["ident"] == w.V.ident)) for c in CRASHES],
         v_exception=repr(w.V.saved_exception)[:120] if getattr(w.V, "saved_exception", None) else None,
     )
